@@ -2,14 +2,21 @@ package main
 
 import (
 	"fmt"
-	"math"
 
+	"github.com/golang/geo/s1"
 	"github.com/golang/geo/s2"
 )
 
+func ll(a, b float64) s2.Point { return s2.PointFromLatLng(s2.LatLngFromDegrees(a, b)) }
 func main() {
-	a0, a1 := s2.PointFromCoords(1, -1e-60, 0), s2.PointFromCoords(1, 1e-60, 0)
-	b0, b1 := s2.PointFromCoords(1, 0, -1e-60), s2.PointFromCoords(1, 5e-61, 1e-60)
-	x, y := s2.Intersection(a0, a1, b0, b1), s2.Intersection(b0, b1, a0, a1)
-	fmt.Println(math.Signbit(x.Z), math.Signbit(y.Z), x, y)
+	idx := s2.NewShapeIndex()
+	pl := s2.Polyline{ll(0, 0), ll(0, 10)}
+	idx.Add(&pl)
+	tidx := s2.NewShapeIndex()
+	tp := s2.Polyline{ll(-1, 1), ll(1, 2), ll(-1, 3), ll(1, 4)}
+	tidx.Add(&tp)
+	for _, me := range []float64{0, 0.01} {
+		q := s2.NewClosestEdgeQuery(idx, s2.NewClosestEdgeQueryOptions().MaxError(s1.ChordAngleFromAngle(s1.Angle(me))))
+		fmt.Println(me, float64(q.Distance(s2.NewMinDistanceToShapeIndexTarget(tidx))))
+	}
 }
